@@ -168,13 +168,16 @@ def binop_ff(a: float, b: float) -> bool:
 CORPUS = [0, -0.0, 1, -1, 2 ** 63 - 1, 2 ** 63 + 1, 10 ** 40, 5e-324, 1.7976931348623157e308, 1.5, -2.5, 3]
 
 
+CBOX = [(v,) for v in CORPUS]
+
+
 def binop_sel(i: int, j: int) -> bool:
     """
     pre: 0 <= i < len(CORPUS) and 0 <= j < len(CORPUS)
     post: _
     """
+    a, b = CBOX[i][0], CBOX[j][0]        # small table of tuples indexed under tracing: one path per pair
     with H.NoTracing():
-        a, b = CORPUS[int(i)], CORPUS[int(j)]
         got = yq.outcome('$a %s $b' % OP, a=a, b=b)
         try:
             exp = ref_binop(OP, a, b)
